@@ -76,7 +76,8 @@ v("C04", "gate-helper-extracted", "keep", [], [("plugin_logger.go",
   "func (c *LoggerBase) enabled(e *Event) bool { return c.Level.Enable(e.Level) }\n\nfunc (c *AsyncLogger) Append(e *Event) {\n\tif c.enabled(e) {")])
 
 # ---------------------------------------------------------------- C02
-v("C02", "rebind-only-unbound", "break", ["C02.rebind"], [("log_refresh.go",
+# behaviour-preserving after all: Destroy unbinds every tag, so a tag is never still bound when a Refresh gets past its guard
+v("C02", "rebind-only-unbound", "keep", [], [("log_refresh.go",
   "\tfor tag, obj := range tagRegistry {\n\t\tobj.logger = findLoggerForTag(tag)\n\t}",
   "\tfor tag, obj := range tagRegistry {\n\t\tif obj.logger == nil {\n\t\t\tobj.logger = findLoggerForTag(tag)\n\t\t}\n\t}")])
 v("C02", "matcher-falls-back-to-default", "break", ["C02.result"], [("log_refresh.go",
@@ -330,7 +331,8 @@ v("C16", "destroy-keeps-flag", "break", ["C16.destroy"], [("log_refresh.go",
 v("C16", "generated-appender-without-layout", "break", ["C16.iface-fields"], [("plugin_logger.go",
   "\t\t\tAppender: &RollingFileAppender{\n\t\t\t\tLayout:   layout,\n\t\t\t\tFileDir:  f.FileDir,\n\t\t\t\tFileName: f.FileName + \".wf\",",
   "\t\t\tAppender: &RollingFileAppender{\n\t\t\t\tFileDir:  f.FileDir,\n\t\t\t\tFileName: f.FileName + \".wf\",")])
-v("C16", "once-guard-after-effects", "break", ["C16.once-guard"], [("log_refresh.go",
+# behaviour-preserving after all: storing true into a flag that is already true changes nothing
+v("C16", "once-guard-after-effects", "keep", [], [("log_refresh.go",
   "\t// Ensure this refresh is executed only once\n\tif global.init {\n\t\treturn errutil.Explain(nil, \"log refresh already done\")\n\t}\n\tglobal.init = true\n",
   "\twasInit := global.init\n\tglobal.init = true\n\tif wasInit {\n\t\treturn errutil.Explain(nil, \"log refresh already done\")\n\t}\n")])
 v("C16", "panic-on-hot-path", "break", ["C16.no-panic-hot", "C19"], [("plugin_appender.go",
